@@ -74,6 +74,7 @@ def unknown_atrule(rnd):
     return '%s %s { %s }' % (kw, body, soup(rnd, rnd.randint(0, 4), 1, True))
 
 
+GOOD_DECLS_TAIL = ['left: 0', 'color: blue !important', 'margin: 1px 2px', 'width: calc(1px + 2px)', 'k l: m', '']
 DECL_FIRST = ['number', 'dimension', 'percentage', 'hash', 'string', 'uri', 'function', 'paren', 'bracket', 'brace',
               'char$', 'char!', 'char:', 'char.', 'char=', 'char>', 'includes', 'urange']
 
@@ -88,6 +89,10 @@ def junk_decl(rnd, cls=None, first=None):
         else:
             head = group(rnd, first)
         rest = soup(rnd, rnd.randint(0, 4), 0, False)
+        if rnd.random() < 0.3:
+            # a block at depth 0 and then something that would be a good declaration by itself: still inside the junk,
+            # which ends at its own ';'
+            rest += ' { ' + soup(rnd, rnd.randint(0, 3), 1, True) + ' } ' + rnd.choice(GOOD_DECLS_TAIL)
         # a depth-0 at-keyword would start an (unknown) at-rule inside the block: keep it out of the tail
         return (head + ' ' + rest).replace('@kw', 'k').strip(), cls, first
     if cls == 'nocolon':
